@@ -190,6 +190,10 @@ func (eng *Engine) registerIntrinsics() {
 	vp("Fork", func(e *Exec, fr *frame, fn *ssa.Function, args []Value) Value {
 		return mkBool(e.branch(fr, args[0].(*Term)))
 	})
+	vp("Stop", func(e *Exec, fr *frame, fn *ssa.Function, args []Value) Value {
+		e.abort("ok", "path stopped by the harness")
+		return nil
+	})
 	vp("Symbolic", func(e *Exec, fr *frame, fn *ssa.Function, args []Value) Value {
 		return mkBool(e.eng.conf.Concrete == nil)
 	})
